@@ -168,7 +168,14 @@ impl ast::Visit for Visitor<'_, '_> {
                 }
             },
 
-            ast::StmtKind::CallSub { .. } => unimplemented!("need to check arg types against signature"),
+            ast::StmtKind::CallSub { func, .. } => {
+                // reserved syntax: nothing downstream can compile it yet
+                let e = self.ctx.emitter.emit(error!(
+                    message("feature not supported"),
+                    primary(func, "'@'/'async' call syntax is reserved and not implemented yet"),
+                ));
+                self.errors.set(e);
+            },
 
             // the operands of `interrupt[n]:` and `+n:` are const-evaluated later; they must be integers
             ast::StmtKind::InterruptLabel(expr) => {
